@@ -534,8 +534,21 @@ def prove_disconnect_relies(src_root, ex: Explorer):
             ob.name = 'C16.watchdog.cancellation-passes-disconnect.' + ob.name[len('C10.disconnect.'):]
 
 
+def prove_tree_relies(src_root, ex: Explorer):
+    """What a (re-)login tells the server about the place in the distributed tree is computed from DistributedNetwork.parent at that
+    moment (C13.told._on_session_initialized).  It is the truth only if a parent that was lost - also while there was NO session - is
+    forgotten: the C13 obligations about the CLOSED handler (with and without a session) and about the session start are discharged
+    here as well."""
+    from contracts import C13
+    C13.prove_unset_parent(src_root, ex)
+    C13.prove_session_initialized(src_root, ex)
+    for ob in ex.obligations:
+        if ob.name.startswith('C13.'):
+            ob.name = 'C16.login.tree-position.' + ob.name[4:]
+
+
 def items(src_root, tier):
-    return [('disconnect-relies', None), ('login', None), ('ports', None), ('user', None), ('room', None), ('interest', None), ('shares', None), ('destroy', None),
+    return [('tree-relies', None), ('disconnect-relies', None), ('login', None), ('ports', None), ('user', None), ('room', None), ('interest', None), ('shares', None), ('destroy', None),
             ('watchdog', None), ('stop', None), ('tasks', None)]
 
 
@@ -549,7 +562,7 @@ def run_item(src_root, item, tier):
         else:
             {'login': prove_login, 'ports': prove_network_ports, 'user': prove_user_session, 'room': prove_room_session,
              'interest': prove_interest_session, 'shares': prove_shares_session, 'destroy': prove_destroy, 'watchdog': prove_watchdog,
-             'tasks': prove_task_bookkeeping, 'disconnect-relies': prove_disconnect_relies}[kind](src_root, ex)
+             'tasks': prove_task_bookkeeping, 'disconnect-relies': prove_disconnect_relies, 'tree-relies': prove_tree_relies}[kind](src_root, ex)
     except Unsupported as e:
         res.errors.append(f'{kind}: unsupported: {e}')
     collect(res, ex)
